@@ -52,6 +52,9 @@ pub struct CheckDef {
     /// CPU seconds a single case may legitimately need (watchdog)
     pub cpu_limit_s: u64,
     pub fault_kinds: &'static str,
+    /// enumerating checks: evidence counts sub-runs (one per injected fault /
+    /// damaged image / configuration) rather than cases
+    pub count_subruns: bool,
 }
 
 pub fn all() -> Vec<CheckDef> {
